@@ -4,6 +4,7 @@ import ScyllaVerif.Model.Plan
 import ScyllaVerif.Model.Sharding
 import ScyllaVerif.Model.Tablets
 import ScyllaVerif.Model.TabletsRefresh
+import ScyllaVerif.Model.PartitionKey
 /-
 Model of the route of a token-aware request (C12): a COMPOSITION of the C03 / C04 / C05 / C11 / C15 models plus the two
 pieces that exist only here - the policy over a *tablet* replica set and the per-node connection pool.
@@ -31,6 +32,9 @@ pieces that exist only here - the policy over a *tablet* replica set and the per
                                     `PlainSharded` set.  The token-unaware steps / groups are literally those of the C05
                                     model (`pickSteps` / `fallbackGroups` of the same request without token, first three
                                     entries dropped).
+* `PreparedM`, `ExecM`, `sessionRoutingInfo`, `sessionFirstAttempt`
+                                  ← `Session::execute` (`session.rs:1775-1816`): token (C03 model), table spec, LWT flag,
+                                    consistency, location preference → `RoutingInfo` → plan → first attempt.
 * `routePlan`                     ← `Plan::new(policy, routing_info, cluster)` (`session.rs:2165-2173`): tablets first
                                     (`tablets_for_table(table_spec)` is `Some` - also with an EMPTY tablet list: the table
                                     is then known to be tablet-based and the ring is never consulted), else the C05 `plan`.
@@ -281,6 +285,35 @@ def routePlan (rc : RCluster) (cfg : Config) (r : RRequest) (ρp : RhoPick) (ρf
   | some xs => planT cl cfg r.rq (tabletReplicas rc xs (r.rq.token.getD 0)) ρp ρf
   | none => plan cl cfg r.rq ρp ρf
 
+/-! ### the Session glue: from a prepared statement and bound values to the `RoutingInfo` -/
+
+/-- What `Session::execute` reads of the `PreparedStatement` (`session.rs:1775-1816`): the partition-key marker
+indexes (`get_variable_pk_indexes`), the partitioner chosen at prepare time (`get_partitioner_name`: CDC or Murmur3),
+the table spec of the first bind marker (`get_table_spec`: keyspace `k<i>`, table `t<j>`), `is_confirmed_lwt`. -/
+structure PreparedM where
+  pk : List PartitionKey.PkIndex
+  cdc : Bool
+  table : Option (Nat × Nat)
+  lwt : Bool
+  deriving Repr
+
+/-- What it takes from the execution profile and the session: consistency and `node_location_preference`. -/
+structure ExecM where
+  consistency : Consistency
+  pref : Pref
+  deriving Repr
+
+/-- `Session::execute`, up to `RoutingInfo { consistency, serial_consistency, token, table, is_confirmed_lwt,
+node_location_preference }`: the token is `extract_partition_key_and_calculate_token(partitioner, values)` (the C03
+model; `None` for a statement without partition-key markers); an extraction / encoding error makes `execute` return
+before anything is sent. -/
+def sessionRoutingInfo (p : PreparedM) (values : List PartitionKey.RawValue) (ex : ExecM) :
+    Except PartitionKey.TokenErr RRequest :=
+  match PartitionKey.boundCalculateToken p.cdc p.pk values with
+  | .error e => .error e
+  | .ok tok =>
+    .ok ⟨⟨ex.consistency, tok.map Int64.toInt, p.table.map (·.1), p.lwt, ex.pref⟩, (p.table.map (·.2)).getD 0⟩
+
 /-- `NodeAttemptTarget { node, shard }`. -/
 structure Attempt where
   node : Node
@@ -290,6 +323,14 @@ structure Attempt where
 /-- First `Plan::next()`: the head of the plan, a missing shard replaced by `random_range(0..nr_shards)` (`draw`). -/
 def firstAttempt (rc : RCluster) (plan : List Target) (draw : Nat) : Option Attempt :=
   plan.head?.map (fun t => ⟨t.1, t.2.getD (draw % ((rc.sharder t.1.id).map (·.nr)).getD 1)⟩)
+
+/-- The first attempt of `Session::execute(prepared, values)`: routing info, `Plan::new`, first target, shard fill-in.
+`none` = nothing is sent (token error, or an empty plan). -/
+def sessionFirstAttempt (rc : RCluster) (cfg : Config) (p : PreparedM) (values : List PartitionKey.RawValue) (ex : ExecM)
+    (ρp : RhoPick) (ρf : RhoFb) (draw : Nat) : Option Attempt :=
+  match sessionRoutingInfo p values ex with
+  | .error _ => none
+  | .ok r => firstAttempt rc (routePlan rc cfg r ρp ρf) draw
 
 /-! ### the per-node connection pool -/
 
